@@ -114,6 +114,14 @@ class Build:
             self._built[key] = out
         return self._built[key]
 
+    def shim(self, name):
+        key = "shim:" + name
+        if key not in self._built:
+            out = os.path.join(self.scratch.root, name + ".so")
+            _run(["cc", "-O1", "-w", "-fPIC", "-shared", "-o", out, os.path.join(VERIF, "probe", name + ".c"), "-ldl"], self.src)
+            self._built[key] = out
+        return self._built[key]
+
     def probe_so(self, name, extra_srcs=(), opt="-O1"):
         """Shared-object probe for ctypes (no sanitizer: the ASan twin is the executable)."""
         key = "so:" + name
